@@ -23,6 +23,9 @@ def explore(ctx, art):
         lines = lines * 3     # the scheduler inside a bubble is not seeded: repeat the grid
     # "during send": the stream peer has stopped reading, the frame write is blocked in the transport (real time)
     lines += ["case tcp %s stalled %s" % (o, c) for o in OPS for c in CAUSES]
+    # server side (real sockets, real time): a blocked DiscoveryRequest; Stop() with 0/1/3 connections whose handlers block
+    lines += ["case udp discover live %s" % c for c in ("cancel", "deadline", "close")]
+    lines += ["case %s srvstop k%d stop" % (t, k) for t in ("udp", "tcp") for k in (0, 1, 3)]
     impl = common.run_test_harness(ctx, art["test"], "TestC09", lines, timeout=1500)
     if impl is None or len(impl) != len(lines):
         return
@@ -51,7 +54,8 @@ def explore(ctx, art):
     ctx.cov["exhaustive"] = True
     ctx.cov["rule"] = ("the complete grid {udp, tcp} x {get, observe, observation cancel, ping, one-way write} x {before send, after send, after ACK, "
                        "queued behind the limiter (limit 1), mid block-wise transfer} x {cancel, deadline, local close, peer close, garbage}, plus tcp x "
-                       "op x {frame write blocked because the peer stopped reading} x cause (real time, bound 0.5 s); "
+                       "op x {frame write blocked because the peer stopped reading} x cause (real time, bound 0.5 s); DiscoveryRequest x {cancel, "
+                       "deadline, server stop}; Stop() from three goroutines of udp/tcp servers with 0/1/3 connections whose handlers block; "
                        "every case is distinct; each ends with Close from three goroutines + one more Close, checking the done signal and that two "
                        "registered on-close callbacks ran exactly once. Bound: the call must return within 1 ms of virtual time after the cause.")
     for l, o in list(zip(lines, impl))[:3]:
